@@ -14,15 +14,27 @@ import (
 type ModSet struct {
 	top bool
 	m   map[string]bool
+	// root[n]: bit k (k<62) = written through an object reachable from parameter k;
+	// bit 63 = written through anything else (absolute). Only meaningful in summaries.
+	root map[string]uint64
 }
 
-func newModSet() *ModSet { return &ModSet{m: map[string]bool{}} }
+const rootAbs = uint64(1) << 63
 
-func (s *ModSet) add(n string) bool {
-	if s.top || s.m[n] {
+func newModSet() *ModSet { return &ModSet{m: map[string]bool{}, root: map[string]uint64{}} }
+
+func (s *ModSet) add(n string) bool { return s.addRoot(n, rootAbs) }
+
+func (s *ModSet) addRoot(n string, mask uint64) bool {
+	if s.top {
+		return false
+	}
+	old := s.root[n]
+	if s.m[n] && old|mask == old {
 		return false
 	}
 	s.m[n] = true
+	s.root[n] = old | mask
 	return true
 }
 
@@ -41,8 +53,122 @@ func (s *ModSet) union(o *ModSet) bool {
 	}
 	ch := false
 	for k := range o.m {
-		if !s.m[k] {
-			s.m[k] = true
+		if s.addRoot(k, rootAbs) {
+			ch = true
+		}
+	}
+	return ch
+}
+
+// rootOf classifies the object a pointer/slice/map value belongs to:
+// -2 function-local fresh allocation, k>=0 reachable from parameter k, -1 anything else.
+func rootOf(v ssa.Value, depth int) int {
+	return rootOfV(v, depth, map[ssa.Value]bool{})
+}
+
+func rootOfV(v ssa.Value, depth int, visiting map[ssa.Value]bool) int {
+	if depth > 30 {
+		return -1
+	}
+	rootOf := func(v ssa.Value, d int) int { return rootOfV(v, d, visiting) }
+	switch x := v.(type) {
+	case *ssa.Alloc, *ssa.MakeSlice, *ssa.MakeMap:
+		return -2
+	case *ssa.Parameter:
+		for i, p := range x.Parent().Params {
+			if p == x {
+				if i < 62 {
+					return i
+				}
+				return -1
+			}
+		}
+		return -1
+	case *ssa.FieldAddr:
+		return rootOf(x.X, depth+1)
+	case *ssa.IndexAddr:
+		return rootOf(x.X, depth+1)
+	case *ssa.ChangeType:
+		return rootOf(x.X, depth+1)
+	case *ssa.Slice:
+		return rootOf(x.X, depth+1)
+	case *ssa.SliceToArrayPointer:
+		return rootOf(x.X, depth+1)
+	case *ssa.MakeInterface:
+		if pointerLike(x.X.Type()) {
+			return rootOf(x.X, depth+1)
+		}
+		return -2
+	case *ssa.Phi:
+		if visiting[v] {
+			return -3
+		}
+		visiting[v] = true
+		defer delete(visiting, v)
+		r := -3
+		for _, e := range x.Edges {
+			if e == v {
+				continue
+			}
+			er := rootOf(e, depth+1)
+			if er == -3 {
+				continue // cycle back into a phi under evaluation
+			}
+			if r == -3 {
+				r = er
+			} else if r != er {
+				return -1
+			}
+		}
+		if r == -3 {
+			return -1
+		}
+		return r
+	case *ssa.Const:
+		return -2 // nil
+	}
+	return -1
+}
+
+func rootMask(r int) uint64 {
+	switch {
+	case r == -2:
+		return 0
+	case r >= 0:
+		return uint64(1) << uint(r)
+	}
+	return rootAbs
+}
+
+// unionCall merges a callee summary into s for a call whose argument roots are given.
+func (s *ModSet) unionCall(o *ModSet, argRoots []int) bool {
+	if o == nil || s.top {
+		return false
+	}
+	if o.top {
+		s.top = true
+		return true
+	}
+	ch := false
+	for k := range o.m {
+		cm := o.root[k]
+		var mask uint64
+		if cm&rootAbs != 0 {
+			mask |= rootAbs
+		}
+		for j := 0; j < 62; j++ {
+			if cm&(uint64(1)<<uint(j)) != 0 {
+				if j < len(argRoots) {
+					mask |= rootMask(argRoots[j])
+				} else {
+					mask |= rootAbs
+				}
+			}
+		}
+		if mask == 0 {
+			continue // writes only into objects that are local to the caller
+		}
+		if s.addRoot(k, mask) {
 			ch = true
 		}
 	}
@@ -165,9 +291,15 @@ func externalMods(sig *types.Signature, recv types.Type, ms *ModSet) {
 	}
 }
 
+type callSite struct {
+	callee *ssa.Function
+	roots  []int
+}
+
 type fnSummary struct {
 	mods    *ModSet
 	callees []*ssa.Function
+	sites   []callSite
 	dyn     bool // has dynamic calls of unknown targets
 }
 
@@ -198,14 +330,21 @@ func (e *Engine) computeSummaries() {
 		inq[fn] = false
 		s := e.summ[fn]
 		changed := false
-		for _, cal := range s.callees {
-			cs := e.summ[cal]
+		for _, site := range s.sites {
+			cs := e.summ[site.callee]
 			if cs == nil {
-				cs = e.directSummary(cal)
-				e.summ[cal] = cs
+				cs = e.directSummary(site.callee)
+				e.summ[site.callee] = cs
 			}
-			if s.mods.union(cs.mods) {
+			if s.mods.unionCall(cs.mods, site.roots) {
 				changed = true
+			}
+		}
+		for _, an := range fn.AnonFuncs {
+			if cs := e.summ[an]; cs != nil {
+				if s.mods.union(cs.mods) {
+					changed = true
+				}
 			}
 		}
 		if changed {
@@ -237,7 +376,7 @@ func (e *Engine) directSummary(fn *ssa.Function) *fnSummary {
 		if isKnownPureExternal(fn) {
 			return s
 		}
-		externalMods(fn.Signature, nil, s.mods)
+		externalModsRooted(fn.Signature, s.mods)
 		return s
 	}
 	if m := lookupModel(fn); m != nil {
@@ -251,19 +390,20 @@ func (e *Engine) directSummary(fn *ssa.Function) *fnSummary {
 		for _, in := range b.Instrs {
 			switch x := in.(type) {
 			case *ssa.Store:
-				names, local := staticMems(x.Addr)
-				if !local {
+				names, _ := staticMems(x.Addr)
+				mask := rootMask(rootOf(x.Addr, 0))
+				if mask != 0 {
 					if names == nil {
 						s.mods.top = true
 					}
 					for _, n := range names {
-						s.mods.add(n)
+						s.mods.addRoot(n, mask)
 					}
 				}
 			case *ssa.MapUpdate:
-				if _, isMake := x.Map.(*ssa.MakeMap); !isMake {
+				if mask := rootMask(rootOf(x.Map, 0)); mask != 0 {
 					for _, n := range mapMems(x.Map.Type().Underlying().(*types.Map)) {
-						s.mods.add(n)
+						s.mods.addRoot(n, mask)
 					}
 				}
 			case *ssa.Send, *ssa.Select:
@@ -285,8 +425,19 @@ func (e *Engine) directSummary(fn *ssa.Function) *fnSummary {
 
 func (e *Engine) callMods(x ssa.CallInstruction, s *fnSummary, seen map[*ssa.Function]bool) {
 	com := x.Common()
+	var roots []int
+	if com.IsInvoke() {
+		roots = append(roots, rootOf(com.Value, 0))
+	}
+	for _, a := range com.Args {
+		roots = append(roots, rootOf(a, 0))
+	}
 	addCallee := func(f *ssa.Function) {
-		if f != nil && !seen[f] {
+		if f == nil {
+			return
+		}
+		s.sites = append(s.sites, callSite{callee: f, roots: roots})
+		if !seen[f] {
 			seen[f] = true
 			s.callees = append(s.callees, f)
 		}
@@ -313,14 +464,18 @@ func (e *Engine) callMods(x ssa.CallInstruction, s *fnSummary, seen map[*ssa.Fun
 			}
 		case "copy":
 			if sl, ok := com.Args[0].Type().Underlying().(*types.Slice); ok {
-				for _, n := range elemMems(sl.Elem()) {
-					s.mods.add(n)
+				if mask := rootMask(rootOf(com.Args[0], 0)); mask != 0 {
+					for _, n := range elemMems(sl.Elem()) {
+						s.mods.addRoot(n, mask)
+					}
 				}
 			}
 		case "delete":
 			if mt, ok := com.Args[0].Type().Underlying().(*types.Map); ok {
-				for _, n := range mapMems(mt) {
-					s.mods.add(n)
+				if mask := rootMask(rootOf(com.Args[0], 0)); mask != 0 {
+					for _, n := range mapMems(mt) {
+						s.mods.addRoot(n, mask)
+					}
 				}
 			}
 		case "clear":
@@ -523,8 +678,8 @@ func (e *Engine) summaryOf(fn *ssa.Function) *fnSummary {
 	e.summ[fn] = s
 	for i := 0; i < 8; i++ {
 		ch := false
-		for _, cal := range s.callees {
-			if s.mods.union(e.summaryOf2(cal, 0).mods) {
+		for _, site := range s.sites {
+			if s.mods.unionCall(e.summaryOf2(site.callee, 0).mods, site.roots) {
 				ch = true
 			}
 		}
@@ -545,8 +700,8 @@ func (e *Engine) summaryOf2(fn *ssa.Function, depth int) *fnSummary {
 		s.mods.top = true
 		return s
 	}
-	for _, cal := range s.callees {
-		s.mods.union(e.summaryOf2(cal, depth+1).mods)
+	for _, site := range s.sites {
+		s.mods.unionCall(e.summaryOf2(site.callee, depth+1).mods, site.roots)
 	}
 	return s
 }
@@ -571,4 +726,36 @@ func isKnownPureExternal(fn *ssa.Function) bool {
 		return true
 	}
 	return false
+}
+
+// externalModsRooted: like externalMods, but each array is rooted at the parameter it is reachable from.
+func externalModsRooted(sig *types.Signature, ms *ModSet) {
+	idx := 0
+	addT := func(t types.Type) {
+		mask := rootAbs
+		if idx < 62 {
+			mask = uint64(1) << uint(idx)
+		}
+		switch u := t.Underlying().(type) {
+		case *types.Pointer:
+			for _, a := range locOfRef("?", u.Elem()).accs {
+				ms.addRoot(a.mem, mask)
+			}
+		case *types.Slice:
+			for _, n := range elemMems(u.Elem()) {
+				ms.addRoot(n, mask)
+			}
+		case *types.Map:
+			for _, n := range mapMems(u) {
+				ms.addRoot(n, mask)
+			}
+		}
+		idx++
+	}
+	if sig.Recv() != nil {
+		addT(sig.Recv().Type())
+	}
+	for i := 0; i < sig.Params().Len(); i++ {
+		addT(sig.Params().At(i).Type())
+	}
 }
